@@ -24,6 +24,18 @@ VERIF = Path(__file__).resolve().parent.parent
 REPO = Path(os.environ.get("DASHLIVE_REPO", "/repo"))
 LEAN = VERIF / "lean"
 DRIVER = LEAN / ".lake" / "build" / "bin" / "driver"
+DRIVER_TARGET = "driver"          # lake target of the driver this process uses
+MAIN_FILE = "Main.lean"
+
+
+def use_property(prop: str) -> None:
+    """select the property's own driver (only the Driver modules its channels use, gen_main.py)"""
+    global DRIVER, DRIVER_TARGET, MAIN_FILE
+    import gen_main
+    if prop in gen_main.DRIVER_MODULES:
+        DRIVER_TARGET = f"driver_{prop.lower()}"
+        MAIN_FILE = f"Main_{prop}.lean"
+        DRIVER = LEAN / ".lake" / "build" / "bin" / DRIVER_TARGET
 EVIDENCE = VERIF / "evidence"
 if "DASHLIVE_REPO" in os.environ and Path(os.environ["DASHLIVE_REPO"]).resolve() != Path("/repo"):
     # a run against a scratch worktree (seeded change, mutation test) must not overwrite the
@@ -75,7 +87,7 @@ def lake_build(targets: list[str], timeout: int = 3000) -> tuple[bool, str]:
     with lake_lock():
         p = subprocess.run(["lake", "build", *targets], cwd=LEAN, text=True,
                            capture_output=True, timeout=timeout)
-        if p.returncode == 0 and "driver" in targets and DRIVER.exists():
+        if p.returncode == 0 and DRIVER_TARGET in targets and DRIVER.exists():
             import atexit
             import shutil
             import tempfile
@@ -176,10 +188,10 @@ def check_proofs(prop: str, prop_files: list[str], targets: list[str],
     then audit: forbidden tokens in every imported project file, and
     `#print axioms` of every theorem of the property files."""
     problems: list[str] = []
-    checker_cmd = "cd lean && lake build " + " ".join(targets + ["driver"])
+    checker_cmd = "cd lean && lake build " + " ".join(targets + [DRIVER_TARGET])
     import gen_main
     gen_main.main()
-    ok, out = lake_build(targets + ["driver"])
+    ok, out = lake_build(targets + [DRIVER_TARGET])
     thms: list[str] = []
     for f in prop_files:
         thms += theorems_of(f)
@@ -188,7 +200,7 @@ def check_proofs(prop: str, prop_files: list[str], targets: list[str],
         problems.append("lake build failed: " + " | ".join(errs))
         return ProofReport(False, max(1, len(thms)), 0, thms, {}, problems, out, checker_cmd)
     # forbidden tokens
-    for p in lean_imports_closure(prop_files + ["Main.lean"]):
+    for p in lean_imports_closure(prop_files + [MAIN_FILE]):
         src = strip_comments(p.read_text())
         for i, line in enumerate(src.splitlines(), 1):
             if FORBIDDEN.search(line):
